@@ -3,7 +3,13 @@
 package basichost_test
 
 import (
+	"context"
+	"encoding/binary"
+	"io"
 	"testing"
+	"time"
+
+	"github.com/libp2p/go-libp2p/core/network"
 
 	"github.com/libp2p/go-libp2p/core/protocol"
 	"github.com/libp2p/go-libp2p/internal/verifh"
@@ -186,6 +192,8 @@ func TestVerifC07(t *testing.T) {
 			t.Fatalf("harness failure in case %d: %s", i, w.failed)
 		}
 	}
+	c07ProbePayloadToken(out, worlds[1])
+	c07ProbeBlank(t, out)
 }
 
 // TestVerifC07Replay re-executes the operations of one recorded case on
@@ -264,4 +272,48 @@ func TestVerifC07Replay(t *testing.T) {
 	}
 	out.Case(r.line)
 	r.reset()
+}
+
+// c07ProbePayloadToken documents the boundary of the optimistic path (outside
+// the property's quantifier, which does not range over payload bytes): the
+// dialer believes the listener speaks /c07/a (it does not), opens optimistically
+// and writes application bytes that happen to spell a multistream token naming
+// a protocol the listener does serve.  The listener answers "na" to /c07/a and
+// then reads the payload as the next proposal.  Recorded as coverage counters only.
+func c07ProbePayloadToken(out *verifh.Out, w *c07World) {
+	r := &c07Run{w: w, out: out, slots: map[int64]c07Slot{}}
+	r.reset()
+	var tab []c07Ent
+	r.addHandler(&tab, 5, nil, nil)
+	r.setKnowledge([]int64{0})
+	ctx, cancel := context.WithTimeout(context.Background(), 5*time.Second)
+	defer cancel()
+	s, err := w.d.NewStream(network.WithAllowLimitedConn(ctx, "c07"), w.l.ID(), c07Names[0])
+	if err != nil {
+		out.Cover("probe.payload_token.open_failed")
+		return
+	}
+	w.nonce++
+	tok := append([]byte{byte(len(c07Names[5]) + 1)}, []byte(string(c07Names[5])+"\n")...)
+	var buf [9]byte
+	binary.BigEndian.PutUint64(buf[1:], uint64(w.nonce))
+	s.Write(append(tok, buf[:]...))
+	var e [16]byte
+	s.SetReadDeadline(time.Now().Add(3 * time.Second))
+	if _, err := io.ReadFull(s, e[:]); err != nil {
+		out.Cover("probe.payload_token.dialer_first_read_failed")
+	} else {
+		out.Cover("probe.payload_token.dialer_got_echo")
+	}
+	s.Reset()
+	time.Sleep(50 * time.Millisecond)
+	r.settle(map[int64]bool{w.nonce: true})
+	w.mu.Lock()
+	n := len(w.invs)
+	w.invs = nil
+	w.mu.Unlock()
+	out.CoverN("probe.payload_token.handler_invocations", int64(n))
+	out.Cover("probe.payload_token.runs")
+	r.reset()
+	w.failed = ""
 }
